@@ -55,6 +55,18 @@ def observe_lg(lg, queries):
                 links.append(f'{s.asset.name}:{s.name}>{t.asset.name}:{t.name}')
     links.sort(key=C.skey)
     sub = [[bool(lg.get_asset_by_name(t).is_subasset_of(lg.get_asset_by_name(u))) for u in names] for t in names]
+    # the downward closure, asked twice (a query must not use up what it walks), must be the converse of the upward one
+    subq = []
+    for rnd in (1, 2):
+        for u in names:
+            down = sorted(x.name for x in lg.get_asset_by_name(u).get_all_subassets())
+            exp = sorted(t for i, t in enumerate(names) if sub[i][names.index(u)])
+            if down != exp:
+                subq.append(f'get_all_subassets of {u} (query {rnd}) = {down}, the sub-types are {exp}')
+    for a, row in zip(lg.assets, assets):
+        if [s.name for s in a.sub_assets] != row[2]:
+            subq.append(f'the sub assets of {a.name} changed while the graph was queried')
+    lg._verif_subq = subq
     look = []
     for f1, f2, t1, t2 in queries:
         try:
@@ -269,6 +281,8 @@ def check(pid: str, tier: str, seed: int):
                 snap = copy.deepcopy(LL)
                 obs, lg = observe(impl, LL, queries)
                 pv = property_violations(snap, obs, lg, queries, wf)
+                if lg is not None:
+                    pv += getattr(lg, '_verif_subq', [])
                 if wf and lg is not None and i % 4 == 0:
                     # the same object after regenerate_graph answers every query as a fresh one does
                     try:
